@@ -13,8 +13,8 @@ func init() {
 		ID:  "C19",
 		Run: runC19,
 		Meta: propMeta{
-			Explanation: "One clause of C19 only: a division whose operand type (or type-parameter type set) contains a signed integer type wraps for exactly one operand pair, (min, -1). Every such `/` in core/safemath must be dominated by a branch that compares the divisor with minus one and whose other edge cannot reach the division (it reports the overflow). This is the only way an integer division can produce a wrapped value, so the clause 'never a wrapped value' is decided exactly for SafeDiv and for SafeMul's divide-back check. Functions over unsigned types only are recognised by their types and need no guard.",
-			NotDecided:  "exactness of add/sub/mul/shift results and absence of spurious errors for all operands (SafeAdd/SafeSub comparison idioms, the 128-bit reconstruction of SafeMulInt64/Safe64MulDiv, the adequacy of SafeLeftShift's test) are arithmetic facts about values, not code shape; they are not claimed",
+			Explanation: "Two clauses of C19 that are visible in code shape. (1) A division whose operand type (or type-parameter type set) contains a signed integer type wraps for exactly one operand pair, (min, -1). Every such `/` in core/safemath must be dominated by a branch that compares the divisor with minus one and whose other edge cannot reach the division (it reports the overflow). This is the only way an integer division can produce a wrapped value, so the clause 'never a wrapped value' is decided exactly for SafeDiv and for SafeMul's divide-back check. Functions over unsigned types only are recognised by their types and need no guard. (2) Every raw `*` or `<<` on non-constant integer operands is bound to a variable and every path from it to a nil-error return passes the edge on which the inverse operation (result/x == y, result>>shift == val) restored the operand - the exact overflow test the generic helpers rely on; a raw product returned directly (e.g. a fast path guarded only by an arithmetic argument) or validated by an ordering comparison is reported; the one product by a sign in {1,-1} in SafeMulInt64 is a tabled exemption.",
+			NotDecided:  "exactness of add/sub/mul/shift results and absence of spurious errors for all operands (SafeAdd/SafeSub comparison idioms, the 128-bit reconstruction of SafeMulInt64/Safe64MulDiv, the carry comparisons) are arithmetic facts about values, not code shape; they are not claimed",
 			Assumptions: []string{"Go integer semantics: x / -1 wraps only for the minimum value of a signed type"},
 		},
 	})
@@ -156,8 +156,106 @@ func runC19(c *Ctx) {
 			}
 		}
 	}
+	checkRoundTripValidated(r, p, pkg, info)
 	r.Count(nDiv)
 	if nSigned < 2 {
 		r.Fail("signed-div/guarded", pkg, "-", fmt.Sprintf("expected at least 2 divisions over signed-capable types (SafeDiv, SafeMul), found %d (vacuous)", nSigned))
+	}
+}
+
+// roundTripExempt: raw products that are validated by other means, one named symbol each.
+var roundTripExempt = map[string]string{
+	"int64(lo)*resultSign in core/safemath.SafeMulInt64": "multiplication by a sign in {1,-1} after the 128-bit product was range-checked (hi == 0); the following sign-bit test rejects the one wrapping case",
+}
+
+// checkRoundTripValidated: second clause of C19 that is visible in code shape. A raw `*` or `<<`
+// on non-constant integer operands wraps silently; the generic helpers detect that with the
+// inverse operation (result/x == y, result>>shift == val), which is exact. Every such raw
+// operation in safemath must be bound to a variable, and every path from it to a nil-error
+// return must pass the edge on which the round trip was found to restore the operand. A raw
+// product that is returned directly, or validated by an ordering comparison only, is reported.
+func checkRoundTripValidated(r *Reporter, p *Prog, pkg string, info *types.Info) {
+	n := 0
+	for _, fd := range p.AllFuncDecls(pkg) {
+		if fd.Body == nil || strings.HasSuffix(p.Fset.Position(fd.Pos()).Filename, "_test.go") {
+			continue
+		}
+		fkey := funcKey(pkg, fd)
+		f := newFuncCFG(p, info, fd.Body, fkey)
+		for _, b := range f.G.Blocks {
+			if !b.Live {
+				continue
+			}
+			for i, nd := range b.Nodes {
+				pt := Point{b, i}
+				inspectNoLit(nd, func(m ast.Node) bool {
+					be, ok := m.(*ast.BinaryExpr)
+					if !ok || (be.Op != token.MUL && be.Op != token.SHL) {
+						return true
+					}
+					t := info.TypeOf(be)
+					if t == nil {
+						return true
+					}
+					if bt, isBasic := t.Underlying().(*types.Basic); isBasic && bt.Info()&types.IsInteger == 0 {
+						return true
+					}
+					if tv, ok := info.Types[be]; ok && tv.Value != nil {
+						return true // constant expression
+					}
+					n++
+					key := strings.TrimSuffix(strings.TrimPrefix(exprKey(be), "("), ")") + " in " + fkey
+					if reason, ok := roundTripExempt[key]; ok {
+						r.Pass("wrap/round-trip-validated", key, p.posStr(be.Pos()), "tabled exemption: "+reason)
+						return true
+					}
+					as, isAssign := nd.(*ast.AssignStmt)
+					if !isAssign || len(as.Lhs) != 1 || len(as.Rhs) != 1 || ast.Unparen(as.Rhs[0]) != ast.Expr(be) {
+						r.Fail("wrap/round-trip-validated", key, p.posStr(be.Pos()), "a raw product/shift of non-constant integers is used without being bound to a variable that is validated by the inverse operation: it wraps silently for large operands")
+						return true
+					}
+					res := exprKey(as.Lhs[0])
+					x, y := exprKey(be.X), exprKey(be.Y)
+					valid := f.RelEdges(func(rel Rel) bool {
+						if rel.Op != "==" {
+							return false
+						}
+						pair := func(a, b string) bool { return rel.L == a && rel.R == b || rel.L == b && rel.R == a }
+						if be.Op == token.MUL {
+							return pair("("+res+"/"+x+")", y) || pair("("+res+"/"+y+")", x)
+						}
+						return pair("("+res+">>"+y+")", x)
+					})
+					isValid := func(e Edge) bool {
+						for _, v := range valid {
+							if v == e {
+								return true
+							}
+						}
+						return false
+					}
+					w, found := f.reach(Point{pt.B, pt.I + 1}, &searchOpts{AvoidEdge: isValid}, func(q Point, atExit bool) bool {
+						if atExit {
+							return false
+						}
+						rs, isRet := f.nodeAt(q).(*ast.ReturnStmt)
+						return isRet && len(rs.Results) > 0 && isNil(info, rs.Results[len(rs.Results)-1])
+					})
+					if found {
+						inv := "/"
+						if be.Op == token.SHL {
+							inv = ">>"
+						}
+						r.Fail("wrap/round-trip-validated", key, p.posStr(be.Pos()), fmt.Sprintf("a nil-error return is reachable from %s := %s without passing the edge on which the inverse operation (%s) restored the operand: a wrapped value is returned as exact", res, exprKey(be), inv), w...)
+					} else {
+						r.Pass("wrap/round-trip-validated", key, p.posStr(be.Pos()), "every nil-error return after it passes the round-trip equality edge")
+					}
+					return true
+				})
+			}
+		}
+	}
+	if n < 3 {
+		r.Fail("wrap/round-trip-validated", pkg, "-", fmt.Sprintf("expected the raw products/shifts of SafeMul, SafeMulInt64 and SafeLeftShift, found %d (vacuous)", n))
 	}
 }
